@@ -16,7 +16,7 @@ for pid in sorted(P.PROPS):
         evidence_file="/verif/evidence/%s.json" % pid,
         replay_cmd_template="./check %s --replay {path}" % pid,
         engine=meta["engine"],
-        level_claimed=dict(category="proof", text=meta["text"], design_ref=meta["design_ref"]),
+        level_claimed=dict(category="proof", text=meta["text"] + M.TEXT_ADDENDA.get(pid, ""), design_ref=meta["design_ref"]),
         level_note=meta["level_note"],
         technique=meta["technique"],
     ))
